@@ -55,7 +55,7 @@ def gen_scenario(rng, strategy=None, n_gc=None, feasible=True, features=None, ma
     f = features or {}
 
     def feat(name, p):
-        return f[name] if name in f else (rng.random() < p)
+        return f[name] if f.get(name) is not None else (rng.random() < p)
     start = T0 + datetime.timedelta(days=rng.choice([0, 1, 4, 5, 6]), hours=rng.choice([0, 6, 13, 21]))
     dt = datetime.timedelta(minutes=interval)
     stop = start + n_steps * dt
